@@ -29,7 +29,8 @@ type Outcome struct {
 	HasResult bool     `json:"has_result"` // any posting / metadata returned (even next to an error)
 	NilResult bool     `json:"nil_result"` // RunProgram entry only: result pointer was nil
 
-	raw *interpreter.ExecutionResult // kept for Recheck
+	raw    *interpreter.ExecutionResult // kept for Recheck
+	rawErr interpreter.InterpreterError
 }
 
 // Scribble is what a caller may legally do with a result it owns: write into its maps, its
@@ -65,6 +66,17 @@ func (o Outcome) Recheck() (string, bool) {
 	}
 	var again Outcome
 	again.Err, again.ErrType = o.Err, o.ErrType
+	if o.rawErr != nil {
+		// an error value handed to the caller must keep saying what it said
+		func() {
+			defer func() {
+				if r := recover(); r != nil {
+					again.Err = fmt.Sprint("Error() panics: ", r)
+				}
+			}()
+			again.Err = o.rawErr.Error()
+		}()
+	}
 	fillResult(&again, o.raw)
 	return again.Canon(), again.Canon() == o.Canon()
 }
@@ -209,6 +221,9 @@ func Run(ctx context.Context, pr numscript.ParseResult, vars map[string]string, 
 	res, err := pr.RunWithFeatureFlags(ctx, vars, st, flags)
 	fillResult(&o, &res)
 	o.raw = &res
+	if o.Err != "" || err != nil {
+		o.rawErr = err
+	}
 	fillErr(&o, err)
 	return o
 }
